@@ -121,8 +121,72 @@ def check_apply(run, field, bounds, dof0, ext0, label, before):
         run.ok(mon, unit="apply:alignment", config=label)
 
 
+def expected_mask(b, a):
+    """Independent evaluation of a Boundary's selection from its constructor arguments and the mesh coordinates."""
+    f = a["field"]
+    X = f.region.mesh.points
+    npts, md, fd = X.shape[0], X.shape[1], f.dim
+    if a.get("mask") is not None:
+        m = np.asarray(a["mask"]).reshape(npts, -1)
+        if m.shape[1] == 1:
+            m = np.tile(m, (1, fd))
+            skip = a.get("skip")
+            if skip is not None:
+                for i in range(fd):
+                    if i < len(skip) and skip[i]:
+                        m[:, i] = False
+        return m
+    sel = []
+    for ax, name in enumerate(("fx", "fy", "fz")[:md]):
+        fx = a.get(name, np.isnan)
+        if fx is np.isnan:
+            continue
+        sel.append(np.asarray(fx(X[:, ax]) if callable(fx) else np.isclose(X[:, ax], fx), dtype=bool))
+    if not sel:
+        pts = np.zeros(npts, bool)
+    elif a.get("mode", "or") == "and":
+        pts = np.logical_and.reduce(sel)
+    else:
+        pts = np.logical_or.reduce(sel)
+    m = np.tile(pts.reshape(-1, 1), (1, fd))
+    skip = a.get("skip")
+    if skip is not None:
+        for i in range(fd):
+            if i < len(skip) and skip[i]:
+                m[:, i] = False
+    return m
+
+
+def attach_boundary_hook(run):
+    """Post-condition on every Boundary that is constructed: its mask/dof/points equal the independent evaluation."""
+    import felupe as fem
+
+    def post(obj, a):
+        run.seen("dof.boundary")
+        try:
+            exp = expected_mask(obj, a)
+        except Exception as exc:
+            run.skip("dof.boundary", "arguments not interpretable: " + type(exc).__name__)
+            return
+        f = a["field"]
+        feat = "mask" if a.get("mask") is not None else "+".join(n for n in ("fx", "fy", "fz") if a.get(n, np.isnan) is not np.isnan) or "none"
+        label = "field-dim=%d mesh-dim=%d select=%s mode=%s" % (f.dim, f.region.mesh.dim, feat, a.get("mode", "or"))
+        ok = obj.mask.shape == exp.shape and np.array_equal(obj.mask, exp)
+        dof_ref = (f.dim * np.arange(exp.shape[0]).reshape(-1, 1) + np.arange(f.dim))[exp]
+        ok = ok and np.array_equal(np.asarray(obj.dof), dof_ref) and np.array_equal(np.asarray(obj.points), np.where(exp.any(1))[0])
+        if ok:
+            run.ok("dof.boundary", unit="boundary:selection", config=label)
+        else:
+            run.fail("dof.boundary", "api=Boundary %s clause=selection" % label,
+                     "Boundary selects other unknowns than its coordinate predicates / masks / skip tuple denote (%s)" % label,
+                     {"selected": int(np.sum(obj.mask)), "expected": int(np.sum(exp))})
+
+    attach.wrap_init(fem.Boundary, post)
+
+
 def attach_monitors(run):
     import felupe.dof._tools as T
+    attach_boundary_hook(run)
 
     def post_partition(args, kwargs, ctx, result, exc):
         if exc is not None:
@@ -236,8 +300,6 @@ def random_bounds(rng, field, mesh, tag):
         b = fem.Boundary(f, **kw)
         if style == "array-full":
             b = fem.Boundary(f, **{**kw, "value": rng.standard_normal((len(b.points), dim))})
-        if b.dof.size == 0 and style not in ("pointmask", "dofmask"):
-            continue
         bounds["%s%d" % (tag, k)] = b
         feats.append(style)
     return bounds, feats
@@ -524,7 +586,7 @@ def cases(tier, seed):
 
 
 SPEC = {
-    "required_units": ["partition:disjoint", "partition:cover", "partition:dof0", "apply:alignment", "values", "container+",
+    "required_units": ["partition:disjoint", "partition:cover", "partition:dof0", "boundary:selection", "apply:alignment", "values", "container+",
                        "container-", "container+=", "container-=", "container+list", "getitem", "single-entry-assembly",
                        "solve.partition", "points-without-cells", "fields:2", "fields:3", "loadcase:symmetry",
                        "loadcase:uniaxial", "loadcase:biaxial", "loadcase:shear", "loadcase:uniaxial:values"]
